@@ -45,11 +45,13 @@ const (
 	sTickPF  // like tick+, but the ping cannot be sent (the write fails); KeepAlive object layer only
 	sPartial // some more bytes of a frame that never completes arrive (stream connections only): not a message
 	sTickJ   // now = last received MESSAGE + period + 10 ms (used after sPartial, which arrives >= 30 ms after that message)
+	sRecvL   // a message from the peer >= 30 ms (real time) after the previous one - far less than a period, far more than the margin of tick(-10ms)
+	sTickN   // now = last received MESSAGE + period - 10 ms: the peer was heard less than a period ago
 	sSend    // the application sends a message of its own (non-confirmable / one-way) >= 30 ms after the last received message: not a message FROM the peer
 	nSyms
 )
 
-var symNames = [...]string{"recv", "pong-current", "pong-stale", "tick-", "tick+", "tick++", "tick+(ping-unsendable)", "bytes-of-an-incomplete-frame", "tick(+10ms)", "application-sends"}
+var symNames = [...]string{"recv", "pong-current", "pong-stale", "tick-", "tick+", "tick++", "tick+(ping-unsendable)", "bytes-of-an-incomplete-frame", "tick(+10ms)", "recv(30ms-later)", "tick(-10ms)", "application-sends"}
 
 func str(s []sym) string {
 	var b bytes.Buffer
@@ -494,6 +496,24 @@ func runConn(rec *vr.Rec, layer string, d connDriver, lo, hi time.Time, keepAliv
 				pd.partial()
 				rec.Count("conn_partial_frame_events", 1)
 			}
+		case sRecvL:
+			time.Sleep(30 * time.Millisecond)
+			lo, hi = d.recv(i)
+			u = 0
+			rec.Count("conn_receive_events", 1)
+		case sTickN:
+			// every received message counts: the period runs from the LAST one, however shortly it followed its predecessor
+			np := d.pings()
+			d.tick(lo.Add(period - 10*time.Millisecond))
+			rec.Count("conn_ticks", 1)
+			if d.closed() || d.onInactiveCalls() > 0 {
+				rec.Violation("C18/"+layer+"/closed-although-alive", fmt.Sprintf("event %d: tick 10 ms before a full period since the last received message closed the connection (that message followed its predecessor by 30 ms)", i), c)
+				return
+			}
+			if d.pings() != np {
+				rec.Violation("C18/"+layer+"/ping-before-period", fmt.Sprintf("event %d: a message was received less than a period ago", i), c)
+				return
+			}
 		case sSend:
 			// what this endpoint sends says nothing about the peer: the period keeps running (lo/hi, u unchanged)
 			if sd, ok := d.(interface{ send() }); ok {
@@ -650,6 +670,12 @@ func TestRun(t *testing.T) {
 	enumerate([]sym{sPartial, sTickM, sTickJ}, vr.Scale(3, 5), func(s []sym) {
 		jobs = append(jobs, job{"tcp", false, 0, append([]sym{sRecv}, s...)})
 		jobs = append(jobs, job{"tcp", true, 1 + len(s)%2, append([]sym{sRecv}, s...)})
+	})
+	// two messages in quick succession, then silence for almost a period counted from the second
+	enumerate([]sym{sRecvL, sTickN, sTickJ}, vr.Scale(3, 4), func(s []sym) {
+		jobs = append(jobs, job{"udp", false, 0, append([]sym{sRecv}, s...)})
+		jobs = append(jobs, job{"udp", true, 1 + len(s)%2, append([]sym{sRecv}, s...)})
+		jobs = append(jobs, job{"tcp", len(s)%2 == 1, 1, append([]sym{sRecv}, s...)})
 	})
 	// an application that keeps sending to a peer that has gone silent
 	enumerate([]sym{sSend, sTickM, sTickJ}, vr.Scale(3, 4), func(s []sym) {
